@@ -31,8 +31,8 @@ PROP = dict(
                "method spellings, and validates every request served by the real RoutesHandler/APIHandler (httptest and, through a "
                "real httptest.Server with the request line written verbatim) against the declarative property.",
     level_note="bounded exhaustive at model level; the real code is bound by trace validation of the executed requests only; "
-               "templates: segments are a literal, a whole-segment placeholder or literal-prefix + placeholder (no composite {a}.{b} "
-               "segments), literals without ':' '*' '#'; "
+               "templates: segments are a literal, a whole-segment placeholder literal-prefix + placeholder, or composite ({a}.{b}: outcome left open "
+               "except totality, method and coarse fit), literals without ':' '*' '#'; "
                "net/http's URL.EscapedPath() is trusted and its model is checked on every event",
     design_ref="DESIGN.md 4.1",
     driver="c01",
